@@ -212,8 +212,23 @@ def setup(srv):
 
 
 SNAP_Q = ("SHOW DATABASES; SHOW USERS; SHOW GRANTS FOR grantee; SHOW GRANTS FOR rouser; SHOW GRANTS FOR wouser; "
-          "SHOW GRANTS FOR otheruser; SHOW RETENTION POLICIES ON db1; SHOW RETENTION POLICIES ON db2; "
-          "SHOW MEASUREMENTS ON db1; SHOW MEASUREMENTS ON db2")
+          "SHOW GRANTS FOR otheruser; SHOW GRANTS FOR pwuser; SHOW RETENTION POLICIES ON db1; SHOW RETENTION POLICIES ON db2")
+# (measurement listings come from the stores and lag behind writes: data-level effects are checked by landed_cases / seeds_present)
+
+
+def seeds_present(srv):
+    """the seed points of both databases are still there (nothing was dropped or deleted)"""
+    for _ in range(12):
+        missing = []
+        for db in ("db1", "db2"):
+            for mst in ("c19metric", "c19w", "c19dropmst"):
+                st, b = srv.admin_q("SELECT * FROM %s LIMIT 1" % mst, db)
+                if '"series"' not in b:
+                    missing.append("%s.%s" % (db, mst))
+        if not missing:
+            return []
+        time.sleep(0.25)
+    return missing
 
 
 def snapshot(srv):
